@@ -139,9 +139,9 @@ def run(ctx):
                     why.append("entry parsed as %s" % [(e[3].get('ty'), e[3].get('endian')) for e in rd])
                 pushes = [e for e in b['eff'] if e[0] == 'push']
                 if len(pushes) != 1 or not is_agg(pushes[0][2]) or \
-                        [v for _, v in pushes[0][2][4]] != [rd[0][-1], rd[1][-1]] or [k for k, _ in pushes[0][2][4]] != ['offset', 'record_size']:
+                        [v for _, v in pushes[0][2][4]] != [rd[0][-1], rd[1][-1]] or len(pushes[0][2][4]) != 2:
                     good = False
-                    why.append("entry fields are not (first value -> offset, second -> record_size)")
+                    why.append("the entry pushed is not exactly (first value read, second value read)")
             it = loops[0][2].get('iter')
             if not (is_agg(it) and it[1].startswith('std::ops::Range') and agg_field(it, 'start') == ('int', 0)):
                 good = False
@@ -195,9 +195,10 @@ def run(ctx):
         good = bool(succ)
         for p in succ:
             r = agg_field(p.ret, '0')
-            idx = [v for k, v in r[4] if 'index' in k] if is_agg(r) else []
             calls = [e for e in p.eff if e[0] == 'call' and e[3] and e[3][0] == ('param', 2)]
-            if not idx or not is_agg(idx[0], None, 'Some') or not calls or agg_field(idx[0], '0') != calls[0][-1]:
+            # the index field, by role: the field of the new reader that holds Some(<value parsed from the .shx source>)
+            idx = [v for k, v in r[4] if is_agg(v, None, 'Some') and calls and agg_field(v, '0') == calls[0][-1]] if is_agg(r) else []
+            if len(idx) != 1:
                 good = False
         ctx.ob("C04.agree", "with_shx stores the parsed index", good, "the reader's index is the value parsed from the .shx source",
                site=ctx.site_of(F, ws[0]["def"]), key="C04.agree|with_shx")
@@ -266,7 +267,7 @@ def run(ctx):
                 v = sk[0][4]
                 tgt = agg_field(v, '0') if is_agg(v, 'std::io::SeekFrom', 'Start') else None
                 ts = absint.term_str(tgt) if tgt else ''
-                if not tgt or 'offset' not in ts or 'Mul' not in ts or ', 2)' not in ts or 'arg2' not in ts:
+                if not tgt or ('.' + (util.index_entry_fields(F)[0] or '?')) not in ts or 'Mul' not in ts or ', 2)' not in ts or 'arg2' not in ts:
                     good = False
                     why.append("seeks to %s" % ts)
                 back = sk[1][4]
@@ -292,7 +293,8 @@ def run(ctx):
             calls = [e for e in p.eff if e[0] == 'call' and e[1] == 'std::iter::Iterator::size_hint']
             if calls:
                 tgt = absint.term_str(calls[0][3][0])
-                okp = p.ret == calls[0][-1] and 'shapes_indices<Some>.0' in tgt
+                from .C14 import index_field
+                okp = p.ret == calls[0][-1] and ('%s<Some>.0' % index_field(F)) in tgt
                 desc.append("with index: the index iterator's own hint" if okp else "with index: %s" % absint.term_str(p.ret))
             else:
                 okp = is_agg(p.ret, 'tuple') and agg_field(p.ret, '0') == ('int', 0) and is_agg(agg_field(p.ret, '1'), None, 'None')
